@@ -50,6 +50,9 @@ def catalogue(dep: dict, r) -> List[Tuple[str, str, List[Tuple[int, int]]]]:
         if kind == "number":
             out.append(("invalid-number", f'<newNumberVector device="{d}" name="{n}"><oneNumber name="{e1}">12abc</oneNumber></newNumberVector>', []))
             out.append(("odd-number", f'<newTextVector device="{d}" name="{n}"><oneText name="{e1}">1e400x</oneText></newTextVector>', []))
+            # well-formed number texts far outside any range (the grammar puts no bound on the number of digits)
+            for big in ("9" * 400, "9" * 400 + ".5", "-" + "9" * 330, "9" * 400 + ":30:00", "1" + "0" * 300, "-1" + "0" * 305 + ".25"):
+                out.append(("huge-number", f'<newNumberVector device="{d}" name="{n}"><oneNumber name="{e1}">{big}</oneNumber></newNumberVector>', named(vi, [e1])))
             for odd in ("nan", "inf", "-Infinity", "1e5", "0x10"):
                 out.append(("odd-number", f'<newTextVector device="{d}" name="{n}"><oneText name="{e1}">{odd}</oneText></newTextVector>', []))
         if kind == "blob":
@@ -191,7 +194,7 @@ def run_into(v, tier: str, r) -> None:
         cat = catalogue(dep, r)
         r.shuffle(cat)
         per = 25 if tier == "quick" else 60
-        always = [c for c in cat if c[0].startswith("enable")]
+        always = [c for c in cat if c[0].startswith("enable") or c[0] == "huge-number"]
         for transport in ("tcp", "tty", "direct", "anon"):
             items = cat[:per] + [c for c in always if c not in cat[:per]]
             r.shuffle(items)
